@@ -20,6 +20,7 @@ to C14/ModelIso.v step by step (heap trace after every call, theorems of C14/Pro
 against seeded solo replicas on fresh objects, inputs against deep snapshots; retw = the caller writes into returned objects.
 """
 STATIC = ["C14/Props", "C14/PropsIso", "C14/CheckIso", "C03/Check"]
+import collections
 import random
 import threading
 
@@ -107,7 +108,15 @@ def one_history(run, be, i):
     regs = random_registers(crng, n)
     while freq_first and len(regs) < 2:
         regs = random_registers(crng, n)
-    hr = HistoryRun(be, n, regs)
+    cyc = (i % 4 == 3)
+    if cyc:
+        # cyclic orders of >= 3 qubits in one or several registers (a permutation and its inverse coincide on swaps)
+        regs = [list(r) for r in c03.CYCLIC_LAYOUTS[(i // 4) % len(c03.CYCLIC_LAYOUTS)]]
+        n = max(q for r in regs for q in r) + 1
+        freq_first = freq_first and len(regs) >= 2
+    # both execution modes: every second history runs the circuit object as a density-matrix circuit
+    hr = HistoryRun(be, n, regs, density_matrix=(i % 2 == 1 and n <= 3))
+    Q = [q for r in regs for q in r]
     be.set_seed(crng.randrange(2 ** 31))
     nexec = crng.randint(1, 3)
     nops = crng.randint(nexec + 1, 10)
@@ -130,6 +139,8 @@ def one_history(run, be, i):
                 made += 1
                 if freq_first:
                     hr.accessor("freqs", made - 1, crng.random() < 0.5, True)
+                if cyc:
+                    hr.accessor("probs", made - 1, qubits=(Q if crng.random() < 0.5 else Q[1:] + Q[:1]))
             elif crng.random() < 0.08:
                 hr.final()
             else:
@@ -413,10 +424,15 @@ def part_repeated_sharing(run, be, count):
     for i in range(count):
         crng = random.Random(f"{run.seed}:repshare:{i}")
         n = crng.randint(1, 3)
-        c, regs, cq = c03.repeated_circuit(crng, n)
+        fixed = None
+        if i % 3 == 2:
+            fixed = [list(r_) for r_ in c03.CYCLIC_LAYOUTS[(i // 3) % 6]]
+            n = 3
+        dm_ = (i % 2 == 1)
+        c, regs, cq = c03.repeated_circuit(crng, n, density_matrix=dm_, regs=fixed)
         be.set_seed(crng.randrange(2 ** 31))
         results, S = [], []
-        info = {"part": "repeated_sharing", "case": i, "n": n, "collapse": f"M({','.join(map(str, cq))}, collapse=True)",
+        info = {"part": "repeated_sharing", "case": i, "n": n, "density_matrix": dm_, "collapse": f"M({','.join(map(str, cq))}, collapse=True)",
                 "registers": regs, "executions": []}
         try:
             for _ in range(2):
@@ -424,11 +440,26 @@ def part_repeated_sharing(run, be, count):
                 ns = crng.randint(1, 5)
                 info["executions"].append({"state_times_2^j": [str(a) for a in ints], "j": j, "nshots": ns})
                 with np.errstate(all="ignore"):
-                    r = c(initial_state=np.array(ints, dtype=complex) / 2 ** j, nshots=ns)
+                    psi_ = np.array(ints, dtype=complex) / 2 ** j
+                    r = c(initial_state=(np.outer(psi_, psi_.conj()) if dm_ else psi_), nshots=ns)
                 results.append(r)
                 S.append([int(x) for x in np.asarray(r.samples(binary=False)).tolist()])
                 info["executions"][-1]["samples"] = S[-1]
             terms = [c03.view_terms(r, c.measurements, regs, "repshare", run, info, report_shape=False) for r in results]
+            if dm_:
+                # the averaged state of the result contains every shot's final state with weight 1/nshots: each sample
+                # must have non-zero probability under result.probabilities(measured qubits in the order given)
+                Qm = [q for reg in regs for q in reg]
+                for t_, r in enumerate(results):
+                    pq = np.asarray(r.probabilities(qubits=Qm)).ravel()
+                    st_ = np.asarray(r.state())
+                    exp_ = born_marginal(np.real(np.diag(st_)), n, Qm)
+                    if pq.shape != exp_.shape or not np.max(np.abs(pq - exp_)) <= 1e-12:
+                        run.find("standalone:self_consistency:probabilities:dm_collapse", f"result {t_}: probabilities(qubits={Qm}) is not the Born marginal of the result's own (averaged) state",
+                                 dict(info, result=t_))
+                    elif any(not pq[s_] > 1e-12 for s_ in S[t_]):
+                        run.find("standalone:self_consistency:samples:dm_collapse", f"result {t_}: a sample has probability zero in the result's own (averaged) state",
+                                 dict(info, result=t_))
         except Exception as e:  # noqa
             run.case({"repeated_sharing": info, "raised": True}, False)
             run.find("repeated_sharing:raised", "shot-by-shot execution of a circuit with a collapsing measurement (or reading its result) raised: " + repr(e)[:200],
@@ -531,6 +562,133 @@ def part_clifford(run, be_np, count):
     else:
         run.oblige("test:clifford_results_standalone", True, "test")
 
+# ------------------------------------------------------------------ a result agrees with itself: state vs probabilities vs samples
+SELF_LAYOUTS = [[[2, 0, 1]], [[1, 2, 0]], [[2], [0], [1]], [[1], [2], [0]], [[2, 0], [1]], [[1, 3, 0, 2]], [[3, 0], [2]], [[0, 1, 2]], [[1], [0]], [[3, 1], [0]]]
+
+
+def born_marginal(p_full, n, qs):
+    """independent Born marginal: sum of p_full[x] over the basis states x whose bits on qs (in that order) spell the key"""
+    out = np.zeros(2 ** len(qs))
+    for x in range(2 ** n):
+        key = 0
+        for q in qs:
+            key = 2 * key + ((x >> (n - 1 - q)) & 1)
+        out[key] += p_full[x]
+    return out
+
+
+def self_case(run, be, i):
+    """one circuit object (float gates, asymmetric state), registers in cyclic / non-ascending order, executed twice in
+    state-vector mode and twice in density-matrix mode (different initial basis states and shot counts); accessors read in
+    reverse order of the executions.  Every result: probabilities(qubits) for several qubit orders == Born marginal of ITS
+    OWN state(), every sample has non-zero probability under its own state, frequencies are the counts of its samples, and
+    the two modes agree."""
+    from qibo import Circuit, gates
+    crng = random.Random(f"{run.seed}:self:{i}")
+    regs = [list(r) for r in SELF_LAYOUTS[i % len(SELF_LAYOUTS)]] if i < 2 * len(SELF_LAYOUTS) else random_registers(crng, crng.randint(3, 4))
+    Q = [q for r in regs for q in r]
+    n = max(Q) + 1 + int(crng.random() < 0.3)
+    script = []
+
+    def build(dm):
+        g = random.Random(f"{run.seed}:self:{i}:gates")
+        c = Circuit(n, density_matrix=dm)
+        ones = g.sample(range(n), g.randint(1, max(1, n - 1)))
+        for q in ones:
+            c.add(gates.X(q))
+        for q in range(n):
+            if g.random() < 0.6:
+                c.add(gates.RY(q, theta=g.choice([0.3, 1.1, 2.0, -0.7, 1e-3])))
+        if n >= 2 and g.random() < 0.5:
+            a, b = g.sample(range(n), 2)
+            c.add(gates.CNOT(a, b))
+        for reg in regs:
+            c.add(gates.M(*reg))
+        if not dm:
+            script[:] = [f"{type(x).__name__}({','.join(map(str, x.qubits))}" + (f", theta={x.parameters[0]}" if x.parameters else "") + ")" for x in c.queue]
+        return c
+    info = {"part": "self", "case": i, "n": n, "registers": regs, "executions": []}
+    problems = []
+    per_mode = {}
+    for dm in (False, True):
+        c = build(dm)
+        erng = random.Random(f"{run.seed}:self:{i}:exec")
+        results = []
+        for e in range(2):
+            x0 = erng.randrange(2 ** n) if e else 0
+            ns = erng.randint(5, 12)
+            psi0 = np.zeros(2 ** n, dtype=complex)
+            psi0[x0] = 1
+            be.set_seed(erng.randrange(2 ** 31))
+            init = (np.outer(psi0, psi0.conj()) if dm else psi0) if e else None
+            results.append((c(initial_state=init, nshots=ns), ns, x0))
+            if not dm:
+                info["executions"].append({"initial_basis_state": x0, "nshots": ns})
+        for e in (1, 0):
+            r, ns, x0 = results[e]
+            st = np.asarray(r.state())
+            p_full = (np.real(np.diag(st)) if dm else np.abs(st) ** 2)
+            orders = [Q, Q[1:] + Q[:1], sorted(Q), list(reversed(Q))]
+            mode = "dm" if dm else "sv"
+            for qs in orders:
+                got = np.asarray(r.probabilities(qubits=qs)).ravel()
+                exp = born_marginal(p_full, n, qs)
+                if got.shape != exp.shape or not np.max(np.abs(got - exp)) <= 1e-12:
+                    problems.append((f"probabilities:{mode}", f"execution {e} ({mode}): result.probabilities(qubits={qs}) is not the Born marginal of result.state() in that qubit order", {"qubits": qs, "execution": e}))
+                per_mode.setdefault((e, tuple(qs)), {})[mode] = got
+            pq = born_marginal(p_full, n, Q)
+            S = [int(v) for v in np.asarray(r.samples(binary=False)).tolist()]
+            if len(S) != ns:
+                problems.append((f"nshots:{mode}", f"execution {e} ({mode}): {len(S)} samples for nshots={ns}", {"execution": e}))
+            bad = [s_ for s_ in S if not pq[s_] > 1e-12]
+            if bad:
+                problems.append((f"samples:{mode}", f"execution {e} ({mode}): samples {sorted(set(bad))} (over the measured qubits {Q}) have probability zero in the result's own state", {"execution": e, "samples": S}))
+            F = r.frequencies(binary=False)
+            if dict(F) != dict(collections.Counter(S)):
+                problems.append((f"frequencies:{mode}", f"execution {e} ({mode}): frequencies are not the counts of the samples", {"execution": e}))
+            FR = r.frequencies(binary=True, registers=True)
+            SR = r.samples(binary=True, registers=True)
+            for k_, (m_, reg) in enumerate(zip(c.measurements, regs)):
+                rows = ["".join(str((s_ >> (len(Q) - 1 - Q.index(q))) & 1) for q in reg) for s_ in S]
+                if dict(FR[m_.register_name]) != dict(collections.Counter(rows)) or ["".join(str(int(b)) for b in row) for row in np.asarray(SR[m_.register_name]).tolist()] != rows:
+                    problems.append((f"registers:{mode}", f"execution {e} ({mode}): register {reg} does not show the bits of its qubits of the result's samples", {"execution": e, "register": reg}))
+    for (e, qs), d in per_mode.items():
+        if "sv" in d and "dm" in d and not np.max(np.abs(d["sv"] - d["dm"])) <= 1e-12:
+            problems.append(("modes_disagree", f"execution {e}: probabilities(qubits={list(qs)}) of the state-vector and of the density-matrix execution of the same circuit differ", {"qubits": list(qs), "execution": e}))
+    info["script"] = script
+    return info, problems
+
+
+def part_self(run, be, count, only=None):
+    import collections as _c
+    globals().setdefault("collections", _c)
+    ok = True
+    for i in (range(count) if only is None else only):
+        try:
+            info, problems = self_case(run, be, i)
+        except Exception as e:  # noqa
+            info, problems = {"part": "self", "case": i}, [("raised", "raised: " + repr(e)[:300], {})]
+        run.case({"self": info}, c03_layout_nontrivial(info.get("registers")))
+        if i < 2:
+            run.sample(info)
+        seen = set()
+        for kind, what, extra in problems:
+            ok = False
+            if kind in seen:
+                continue
+            seen.add(kind)
+            run.find(f"standalone:self_consistency:{kind}", what, dict(info, **extra))
+    if only is None:
+        run.oblige("test:result_state_probabilities_samples_agree_both_modes", ok, "test")
+
+
+def c03_layout_nontrivial(regs):
+    if not regs:
+        return False
+    Q = [q for r in regs for q in r]
+    return Q != sorted(Q)
+
+
 # ------------------------------------------------------------------ main
 RULE = ("histories: n<=3, registers = random partition of a random qubit subset in permuted order; 1..3 executions of one circuit object "
         "with different dyadic states (30% basis states) and 1..8 shots at random positions among <=10 operations; accessors "
@@ -548,13 +706,17 @@ RULE = ("histories: n<=3, registers = random partition of a random qubit subset 
         "diff: modes cycling through {state vector, density matrix, shot-by-shot with collapse, noisy trajectories, density matrix with channel / collapse, parallel_execution, "
         "parallel_parametrized_execution, parallel_circuits_execution} x first-gate kinds (also Unitary, channel, collapsing M) x input kinds (also Fortran-ordered), float data, 4..10 operations "
         "each preceded by a re-seed; every result against a seeded solo replica on fresh objects; finally the caller overwrites its input arrays.  "
+        "self: 10 fixed register layouts (3-/4-cycles, registers in non-ascending order) then random ones, X/RY/CNOT float circuits, ONE circuit object per mode executed twice "
+        "(default and basis initial state, 5..12 shots), read in reverse: probabilities(qubits) for 4 orders (given, rotated, sorted, reversed) against the Born marginal of the result's own state(), "
+        "samples in its support, frequencies / register views = counts of its samples, state-vector and density-matrix probabilities equal (1e-12, test).  "
+        "hist additionally: every 4th history on cyclic layouts with probabilities(qubits = Q or Q rotated), every 2nd history as density-matrix circuit.  "
         "retw: 14 accessor calls x {sv, dm, shot-by-shot} x {samples first, frequencies first}, the caller writes into the returned object.")
 
 
 def budgets(tier):
     if tier == "thorough":
-        return {"hist": 3000, "seed": 200, "par": 90, "rep": 150, "cliff": 120, "flip": 150, "xhist": 1600, "diff": 2400, "cliffin": 200}
-    return {"hist": 300, "seed": 40, "par": 18, "rep": 30, "cliff": 24, "flip": 30, "xhist": 240, "diff": 330, "cliffin": 30}
+        return {"hist": 3000, "seed": 200, "par": 90, "rep": 150, "cliff": 120, "flip": 150, "xhist": 1600, "diff": 2400, "cliffin": 200, "self": 200}
+    return {"hist": 300, "seed": 40, "par": 18, "rep": 30, "cliff": 24, "flip": 30, "xhist": 240, "diff": 330, "cliffin": 30, "self": 40}
 
 
 def main(run):
@@ -580,6 +742,7 @@ def main(run):
     sp(run, "hist", lambda: part_histories(run, be, b["hist"]))
     sp(run, "seed", lambda: part_seed(run, be, b["seed"]))
     sp(run, "parallel", lambda: part_parallel(run, be, b["par"]))
+    sp(run, "self", lambda: part_self(run, be, b["self"]))
     sp(run, "repeated_sharing", lambda: part_repeated_sharing(run, be, b["rep"]))
     sp(run, "clifford", lambda: part_clifford(run, be, b["cliff"]))
     sp(run, "bitflip_two_results", lambda: c03.part_bitflip(run, None, be, b["flip"], tag="bitflip_two_results", executions=2))
@@ -604,6 +767,8 @@ def replay(run, data):
             judge_history(run, hr, vals[0], f"hist:case{rp['case']}", rp, shared_key=shared_key_for(hr))
     elif part == "witness":
         part_witness(run, be)
+    elif part == "self":
+        part_self(run, be, 0, only=[rp["case"]])
     elif part == "seed":
         part_seed(run, be, rp["case"] + 1)
     elif part == "parallel":
